@@ -333,8 +333,8 @@ def types_depth2():
 
 
 def types_depth3():
-    """Third level over the reduced/tiny leaves."""
-    inner = _unary_over(LEAVES_TINY) + _binary_over(LEAVES_TINY, LEAVES_TINY[:2])
+    """Third level: every unary constructor over the second level built from one leaf per loader family."""
+    inner = _unary_over(LEAVES_REDUCED) + _binary_over(LEAVES_TINY, LEAVES_TINY[:2])
     out = []
     for u in UNARY:
         for t in inner:
@@ -446,7 +446,7 @@ A0 = [
     const("１", "fullwidth-1"),
     const("1/0"), const("1/2"), const("nan"), const("Infinity"), const("1+2j"), const("QQ=="), const("eA=="), const("YWI="),
     const("QQ"), const("QQ==\n", "QQ==\\n"), const("\n", "LF"), const("1\n", "1\\n"), const("a\n", "a\\n"), const("QQ=Q"), const("=QQ="), const("Q==="), const("2020-01-01"), const("10:20:30"),
-    const("2020-01-01T10:20:30"), const("zz"), const("[a-z]+"), const("("), const("127.0.0.1"),
+    const("2020-01-01T10:20:30"), const("zz"), const("[a-z]+"), const("("), const("a{99999999999999999999}"), const("127.0.0.1"),
     const("12345678-1234-5678-1234-567812345678"),
     const(b""), const(b"x"), const(bytearray(b"x")),
     Datum("[]", lambda: []), Datum("[1]", lambda: [1]), Datum("['a']", lambda: ["a"]), Datum("[[1]]", lambda: [[1]]),
